@@ -2,12 +2,7 @@
 #![allow(clippy::all)]
 pub mod common;
 pub mod refmodel;
-pub mod ts;
 pub mod vsched;
-pub mod lworld;
 pub mod refidl;
+pub mod genidl;
 
-#[allow(non_camel_case_types, non_snake_case, dead_code, unused_imports)]
-pub mod org_verif_t {
-    include!(concat!(env!("OUT_DIR"), "/org.verif.t.rs"));
-}
